@@ -465,6 +465,7 @@ Section WalletProofs.
     Forall (fun e => 1 <= g_idx e <= maxidx (run (create m pw nm) ops) /\
                      g_addr e = addr (derive m (g_idx e))) (gen_trace (create m pw nm) ops).
   Proof.
+    clear kdff_inj F_eqb_spec.
     intros. pose proof (generated_are_derived m pw nm ops) as Hc. split.
     - eapply gen_chain_sorted. exact Hc.
     - apply gen_chain_bounds in Hc. destruct Hc as [_ Hall].
@@ -493,6 +494,7 @@ Section WalletProofs.
     nth_error (map g_addr (gen_trace (create m pw' nm') (restore_ops pw' n)))
               (N.to_nat (g_idx e) - 1) = Some (g_addr e).
   Proof.
+    clear kdff_inj F_eqb_spec.
     intros m pw nm ops e pw' nm' n Hin Hle Hn.
     destruct (generated_strictly_increasing m pw nm ops) as [_ Hall].
     rewrite Forall_forall in Hall. destruct (Hall e Hin) as [Hrange Ha].
